@@ -114,6 +114,8 @@ class Interp:
         self.ver = {}
         self.where = where
         self.ret = None
+        self.alias = {}                  # local name -> env key of the `self.<cache>` object it aliases (same tensor object)
+        self.mutated = []                # env keys of `self.<cache>` objects that were modified in place
 
     # -- helpers
     def err(self, msg):
@@ -135,6 +137,30 @@ class Interp:
             self.env[name] = scalar(lean)
         else:
             self.env[name] = val
+
+    # -- in-place tensor operations (`x.add_(y)`, `x += y`): every alias of the receiver sees the new value
+    def inplace(self, target, new):
+        """`target` (an ast expression: a local name or a `self.<cache>` text that is a key of env) is overwritten in place
+        with `new`; the new value is let-bound once and installed under the receiver, the `self.<cache>` object it aliases
+        and every other local alias of that object"""
+        key = _u(target)
+        root = self.alias.get(key, key)
+        if root not in self.env:
+            self.err(f"in-place operation on an unknown object: {key}")
+        if new.kind != "mat":
+            new = mat(dense(new))
+        base = root.replace("self.", "self_").replace(".", "_")
+        self.ver[base] = self.ver.get(base, 0) + 1
+        lean = f"{base}_{self.ver[base]}"
+        self.lets.append(f"  let {lean} := {new.e}")
+        val = mat(lean)
+        self.env[root] = val
+        for name, k in self.alias.items():
+            if k == root:
+                self.env[name] = val
+        if root.startswith("self.") and root not in self.mutated:
+            self.mutated.append(root)
+        return val
 
     # -- expressions
     def ev(self, n):
@@ -354,8 +380,22 @@ class Interp:
                 return mat(f"({dense(v)}.add (DMat.one.smul {c.e}))")
             if a == "cholesky" and not args:
                 return Val("chol", M=v, upper=False)
+            if a == "solve" and len(args) == 1 and v.kind == "diag":
+                # DiagLinearOperator.solve: division by the diagonal
+                return mat(f"((DMat.diagonal (fun i => ({v.v.body})⁻¹)).mul {dense(self.ev(args[0]))})")
             if a == "solve" and len(args) == 1:
                 return mat(f"((P.inv {dense(v)}).mul {dense(self.ev(args[0]))})")
+            if a == "sqrt_inv_matmul" and len(args) == 1 and not n.keywords and v.kind == "diag":
+                # DiagLinearOperator.sqrt_inv_matmul(rhs) = diag(1/sqrt(d)) rhs
+                return mat(f"((DMat.diagonal (fun i => (P.sqrt ({v.v.body}))⁻¹)).mul {dense(self.ev(args[0]))})")
+            if a == "add_low_rank" and len(args) == 1 and not n.keywords:
+                r = dense(self.ev(args[0]))
+                return mat(f"({dense(v)}.add ({r}.mul {r}.transpose))")
+            if a in ("add_", "sub_") and len(args) == 1 and not n.keywords:
+                o = self.ev(args[0])
+                if o.kind in ("vec", "scalar") or v.kind in ("vec", "scalar"):
+                    self.err(f"in-place operation outside vocabulary: {_u(n)}")
+                return self.inplace(f.value, mat(f"({dense(v)}.{a[:-1]} {dense(o)})"))
             if a == "diagonal" and sorted(k.arg for k in n.keywords) == ["dim1", "dim2"]:
                 if v.kind == "diag":
                     return v.v
@@ -422,13 +462,34 @@ class Interp:
             t = s.targets[0]
             v = self.ev(s.value)
             if isinstance(t, ast.Name):
+                src = _u(s.value)
+                self.alias.pop(t.id, None)
                 self.bind(t.id, v)
+                if src in self.alias or (src.startswith("self.") and src in self.env and v.kind == "mat"):
+                    # `x = self.cache` / `x = y`: the SAME tensor object under another name
+                    self.alias[t.id] = self.alias.get(src, src)
+                elif isinstance(s.value, ast.Call) and isinstance(s.value.func, ast.Attribute) and s.value.func.attr in ("add_", "sub_"):
+                    # the in-place methods return their receiver
+                    rk = _u(s.value.func.value)
+                    self.alias[t.id] = self.alias.get(rk, rk)
                 return
             if isinstance(t, ast.Tuple) and v.kind == "tuple" and len(t.elts) == len(v.items):
                 for e, x in zip(t.elts, v.items):
                     self.bind(e.id, x)
                 return
             self.err(f"assignment target outside vocabulary: {_u(s)}")
+        if isinstance(s, ast.AugAssign) and isinstance(s.op, (ast.Add, ast.Sub)) and isinstance(s.target, (ast.Name, ast.Attribute)):
+            # `x += y` on tensors is an in-place update of the object `x` names
+            a, b = self.ev(s.target), self.ev(s.value)
+            if a.kind in ("vec", "scalar") or b.kind in ("vec", "scalar"):
+                self.err(f"augmented assignment outside vocabulary: {_u(s)}")
+            w = "add" if isinstance(s.op, ast.Add) else "sub"
+            self.inplace(s.target, mat(f"({dense(a)}.{w} {dense(b)})"))
+            return
+        if isinstance(s, ast.Expr) and isinstance(s.value, ast.Call) and isinstance(s.value.func, ast.Attribute) \
+                and s.value.func.attr in ("add_", "sub_"):
+            self.ev(s.value)
+            return
         if isinstance(s, ast.Return):
             self.ret = self.ev(s.value)
             return
@@ -448,12 +509,17 @@ class Interp:
             for arm in (s.body, s.orelse):
                 sub = copy.copy(self)
                 sub.env, sub.ver, sub.lets = dict(self.env), dict(self.ver), []
+                sub.alias, sub.mutated = dict(self.alias), list(self.mutated)
                 sub.run(arm)
                 if sub.ret is not None:
                     self.err("return inside a dynamically guarded block")
                 arms.append(sub)
             changed = [k for k in arms[0].env if arms[0].env[k] is not self.env.get(k)] + \
                       [k for k in arms[1].env if arms[1].env[k] is not self.env.get(k)]
+            for a_ in arms:
+                for k in a_.mutated:
+                    if k not in self.mutated:
+                        self.mutated.append(k)
             for k in dict.fromkeys(changed):
                 if k not in arms[0].env or k not in arms[1].env:
                     continue        # local to one arm (inlined through that arm's lets); unknown afterwards
@@ -514,6 +580,152 @@ def emit_def(name, doc, sig, I, final=None):
     else:
         out = dense(v)
     return f"/-- {doc} -/\ndef {name} {sig} :=\n" + "".join(l + "\n" for l in I.lets) + f"  {out}\n\n"
+
+
+# ----------------------------------------------------------------------------------- shape operations of `_compute_grid`
+
+def _compute_grid(S):
+    """Symbolic execution of the shape operations of `GridInterpolationKernel._compute_grid` on an `n × d` input (no batch
+    dimensions): every tensor is (shape, strides-of-the-original) with symbolic sizes `n`, `d`, `1`; `transpose(-1, -2)`,
+    `unsqueeze(-1)` and `reshape(...)` (row-major) are the vocabulary.  Emits, for both values of `last_dim_is_batch`, the
+    entry `(row, column)` of the input that becomes coordinate `c` of the flattened point `p` handed to
+    `Interpolation.interpolate`, the number of coordinates per point and the batch shape of the result view."""
+    fn = S.func("kernels/grid_interpolation_kernel.py", "GridInterpolationKernel", "_compute_grid")
+    if [a.arg for a in fn.args.args] != ["self", "inputs", "last_dim_is_batch"]:
+        raise TranslateError("_compute_grid: signature changed")
+
+    def prod(xs):
+        xs = [x for x in xs if x != "1"]
+        return " * ".join(xs) if xs else "1"
+
+    def run(flag):
+        # a view: list of (size, role) with role in {'row', 'col', None}; an n × d input read row-major
+        env = {"inputs": [("n", "row"), ("d", "col")]}
+        sym = {}
+        out_ = {}
+
+        def size(e):
+            t = _u(e)
+            if t in sym:
+                return sym[t]
+            if isinstance(e, ast.Constant) and e.value == 1:
+                return "1"
+            if t == "inputs.size(-2)":
+                return env["inputs"][-2][0]
+            if t == "inputs.size(-1)":
+                return env["inputs"][-1][0]
+            raise TranslateError(f"_compute_grid: size outside vocabulary: {t}")
+
+        def view_expr(e):
+            if isinstance(e, ast.Name) and e.id == "inputs":
+                return list(env["inputs"])
+            if isinstance(e, ast.Call) and isinstance(e.func, ast.Attribute):
+                v = view_expr(e.func.value)
+                a = e.func.attr
+                args = [_u(x) for x in e.args]
+                if a == "transpose" and sorted(args) == ["-1", "-2"]:
+                    return v[:-2] + [v[-1], v[-2]]
+                if a == "unsqueeze" and args == ["-1"]:
+                    return v + [("1", None)]
+                if a in ("reshape", "view"):
+                    return ("reshape", v, e.args)
+            raise TranslateError(f"_compute_grid: tensor expression outside vocabulary: {_u(e)}")
+
+        def stmt(s_):
+            t = _u(s_)
+            if isinstance(s_, ast.Expr) and isinstance(s_.value, ast.Constant):
+                return
+            if isinstance(s_, ast.If):
+                if _u(s_.test) != "last_dim_is_batch":
+                    raise TranslateError(f"_compute_grid: guard outside vocabulary: {_u(s_.test)}")
+                for x in (s_.body if flag else s_.orelse):
+                    stmt(x)
+                return
+            if isinstance(s_, ast.Assign) and len(s_.targets) == 1:
+                tg = s_.targets[0]
+                if isinstance(tg, ast.Tuple) and isinstance(s_.value, ast.Tuple) and len(tg.elts) == len(s_.value.elts) \
+                        and all(isinstance(x, ast.Name) for x in tg.elts) and _u(s_.value).count("inputs.size") == len(tg.elts):
+                    for x, vv in zip(tg.elts, s_.value.elts):
+                        sym[x.id] = size(vv)
+                    return
+                if isinstance(tg, ast.Name) and tg.id in ("n_data", "n_dimensions"):
+                    sym[tg.id] = size(s_.value)
+                    return
+                if isinstance(tg, ast.Name) and tg.id == "batch_shape" and _u(s_.value) == "inputs.shape[:-2]":
+                    sym["batch_shape"] = [x[0] for x in env["inputs"][:-2]]
+                    return
+                if isinstance(tg, ast.Name) and tg.id == "batch_shape" and isinstance(s_.value, ast.Call) \
+                        and _u(s_.value.func) == "torch.Size" and len(s_.value.args) == 1 and isinstance(s_.value.args[0], ast.List):
+                    # torch.Size([*batch_shape, size, ...])
+                    bs = []
+                    for el in s_.value.args[0].elts:
+                        if isinstance(el, ast.Starred) and _u(el.value) == "batch_shape" and "batch_shape" in sym:
+                            bs += list(sym["batch_shape"])
+                        elif isinstance(el, ast.Starred) and _u(el.value) == "inputs.shape[:-2]":
+                            bs += [x[0] for x in env["inputs"][:-2]]
+                        else:
+                            bs.append(size(el))
+                    sym["batch_shape"] = bs
+                    return
+                if isinstance(tg, ast.Name) and tg.id == "inputs":
+                    v = view_expr(s_.value)
+                    if isinstance(v, tuple):
+                        _, src, args = v
+                        if len(args) != 2 or _u(args[0]) != "-1":
+                            raise TranslateError(f"_compute_grid: reshape outside vocabulary: {t}")
+                        if "flat" in out_:
+                            raise TranslateError("_compute_grid: the inputs are flattened twice")
+                        out_["flat"] = (src, size(args[1]))
+                        env["inputs"] = [("points", None), (size(args[1]), None)]
+                        return
+                    env["inputs"] = v
+                    return
+                if t == "interp_indices, interp_values = Interpolation().interpolate(self.grid, inputs)":
+                    if "flat" not in out_:
+                        raise TranslateError("_compute_grid: interpolate is called on inputs that were not flattened to points")
+                    out_["called"] = True
+                    return
+                if isinstance(tg, ast.Name) and tg.id in ("interp_indices", "interp_values"):
+                    if t != f"{tg.id} = {tg.id}.view(*batch_shape, n_data, -1)":
+                        raise TranslateError(f"_compute_grid: result view outside vocabulary: {t}")
+                    out_.setdefault("views", []).append((list(sym["batch_shape"]), sym["n_data"]))
+                    return
+            if isinstance(s_, ast.Return):
+                if t != "return (interp_indices, interp_values)":
+                    raise TranslateError(f"_compute_grid: return outside vocabulary: {t}")
+                return
+            raise TranslateError(f"_compute_grid: statement outside vocabulary: {t}")
+
+        for s_ in fn.body:
+            stmt(s_)
+        if not out_.get("called") or len(out_.get("views", [])) != 2 or out_["views"][0] != out_["views"][1]:
+            raise TranslateError("_compute_grid: interpolate / result views not found")
+        src, k = out_["flat"]
+        # flat row-major position over `src` of coordinate c of point p:  f = p * k + c
+        f = "p" if k == "1" else f"(p * {k} + c)"
+        if k == "1":
+            f = "(p + c)"
+        comps = {}
+        for j, (sz, role) in enumerate(src):
+            stride = prod([x[0] for x in src[j + 1:]])
+            if role:
+                comps[role] = f"({f} / ({stride})) % {sz}"
+        if set(comps) != {"row", "col"}:
+            raise TranslateError("_compute_grid: a dimension of the inputs was dropped")
+        bs, nd = out_["views"][0]
+        return f"({comps['row']}, {comps['col']})", k, "[" + ", ".join(bs) + "]", nd
+
+    (srcT, kT, bsT, ndT), (srcF, kF, bsF, ndF) = run(True), run(False)
+    return ("/-- `GridInterpolationKernel._compute_grid` on an `n × d` input: `(row, column)` of the input entry that becomes coordinate `c`\n"
+            "of the flattened point `p` handed to `Interpolation.interpolate` (generated from the transpose / unsqueeze / reshape sequence) -/\n"
+            "def computeGridSource (last_dim_is_batch : Bool) (n d : Nat) (p c : Nat) : Nat × Nat :=\n"
+            f"  if last_dim_is_batch then {srcT} else {srcF}\n\n"
+            "/-- coordinates per flattened point (`n_dimensions` at the `reshape`) -/\n"
+            "def computeGridPointDim (last_dim_is_batch : Bool) (n d : Nat) : Nat :=\n"
+            f"  if last_dim_is_batch then {kT} else {kF}\n\n"
+            "/-- `(batch_shape, n_data)` of the result view `interp_*.view(*batch_shape, n_data, -1)` -/\n"
+            "def computeGridResultShape (last_dim_is_batch : Bool) (n d : Nat) : List Nat × Nat :=\n"
+            f"  if last_dim_is_batch then ({bsT}, {ndT}) else ({bsF}, {ndF})\n\n")
 
 
 EPS = "exact_prediction_strategies.py"
@@ -653,6 +865,74 @@ def translate(repo):
     out.append(emit_def("getCovarianceCross", "`InducingPointKernel._get_covariance`, branch `x1 ≠ x2`",
                         f"{F} {{n1 n2 m : Nat}} (K1z : DMat n1 m α) (K2z : DMat n2 m α) (R : DMat m m α) : DMat n1 n2 α", I))
 
+
+    # ---------------- InterpolatedPredictionStrategy.get_fantasy_strategy (WISKI cache update) as a TRANSITION of `self`
+    fn = S.func(M_EPS, "InterpolatedPredictionStrategy", "get_fantasy_strategy")
+    shape_only = {
+        "full_mean, full_covar = (full_output.mean, full_output.lazy_covariance_matrix)",
+        "batch_shape = full_inputs[0].shape[:-2]", "full_mean = full_mean.view(*batch_shape, -1)", "num_train = self.num_train",
+        "fant_fant_covar = full_covar[..., num_train:, num_train:].evaluate_kernel()", "fant_mean = full_mean[..., num_train:]",
+        "fant_likelihood = self.likelihood.get_fantasy_likelihood(**kwargs)", "return fant_strat"}
+    noise_call = "fant_likelihood.noise_covar(fant_wmat.transpose(-1, -2) if len(fant_wmat.shape) > 2 else fant_wmat)"
+    I = Interp({"self.prepare_dense_wmat(fant_fant_covar)": mat("Wf.transpose"), noise_call: Val("diag", v=vec("noisef i")),
+                "self.interp_inner_prod": mat("P0"), "self.interp_response_cache": mat("resp0"),
+                "targets": mat("yf"), "fant_mean": mat("muf")},
+               where="InterpolatedPredictionStrategy.get_fantasy_strategy")
+    handed = {}
+    made = False
+    for s_ in fn.body:
+        t_ = _u(s_)
+        if t_ in shape_only or (isinstance(s_, ast.Expr) and isinstance(s_.value, ast.Constant)):
+            continue
+        if isinstance(s_, ast.Assign) and _u(s_.targets[0]) == "fant_strat":
+            kws = {k.arg: _u(k.value) for k in s_.value.keywords} if isinstance(s_.value, ast.Call) else {}
+            if _u(s_.value.func) != "self.__class__" or kws.get("uses_wiski") != "True" or kws.get("likelihood") != "fant_likelihood":
+                raise TranslateError(f"get_fantasy_strategy: construction of the fantasy strategy outside vocabulary: {t_}")
+            made = True
+            continue
+        if isinstance(s_, ast.Expr) and isinstance(s_.value, ast.Call) and _u(s_.value.func) == "add_to_cache":
+            a_ = s_.value.args
+            if len(a_) != 3 or _u(a_[0]) != "fant_strat" or not isinstance(a_[1], ast.Constant):
+                raise TranslateError(f"get_fantasy_strategy: add_to_cache call outside vocabulary: {t_}")
+            handed[a_[1].value] = dense(I.ev(a_[2]))
+            continue
+        I.stmt(s_)
+    if not made or set(handed) != {"interp_inner_prod", "interp_response_cache"}:
+        raise TranslateError(f"get_fantasy_strategy: the fantasy strategy does not receive exactly the two WISKI caches: {sorted(handed)}")
+    body = "".join(l + "\n" for l in I.lets)
+    out.append("/-- `InterpolatedPredictionStrategy.get_fantasy_strategy` (WISKI): `((interp_inner_prod, interp_response_cache) handed to the new\n"
+               "strategy, (the same two caches of `self` AFTER the call))` — in-place tensor operations on a cache of `self` show in the second pair -/\n"
+               f"def wiskiFantasyStep {F} {{g nf : Nat}} (P : Structured.Prim α) (P0 : DMat g g α) (resp0 : DMat g 1 α) (Wf : DMat nf g α)\n"
+               "    (noisef : Fin nf → α) (yf muf : DMat nf 1 α) : (DMat g g α × DMat g 1 α) × (DMat g g α × DMat g 1 α) :=\n"
+               + body +
+               f"  (({handed['interp_inner_prod']}, {handed['interp_response_cache']}), "
+               f"({dense(I.env['self.interp_inner_prod'])}, {dense(I.env['self.interp_response_cache'])}))\n\n")
+
+    # ---------------- GridInterpolationKernel._compute_grid: the shape operations in front of Interpolation.interpolate
+    out.append(_compute_grid(S))
+
+    # ---------------- InducingPointKernel.__deepcopy__: how every constructor argument of the copy is obtained
+    fn = S.func(IPK, "InducingPointKernel", "__deepcopy__")
+    if [a.arg for a in fn.args.args] != ["self", "memo"]:
+        raise TranslateError("InducingPointKernel.__deepcopy__: signature changed")
+    ctor = [s_ for s_ in ast.walk(fn) if isinstance(s_, ast.Assign) and isinstance(s_.value, ast.Call) and _u(s_.value.func) == "self.__class__"]
+    if len(ctor) != 1 or ctor[0].value.args:
+        raise TranslateError("InducingPointKernel.__deepcopy__: construction of the copy outside vocabulary")
+    rows = []
+    for k in ctor[0].value.keywords:
+        t_ = _u(k.value)
+        if t_ == f"copy.deepcopy(self.{k.arg}, memo)":
+            mode = "memo"
+        elif t_ == f"copy.deepcopy(self.{k.arg})":
+            mode = "fresh"
+        elif t_ == f"self.{k.arg}":
+            mode = "shared"
+        else:
+            mode = "other"
+        rows.append(f'("{k.arg}", Structured.CopyMode.{mode})')
+    out.append("/-- `InducingPointKernel.__deepcopy__(self, memo)`: how each constructor argument of the copy is obtained -/\n"
+               "def inducingDeepcopyArgs : List (String × Structured.CopyMode) :=\n  [" + ", ".join(rows) + "]\n\n")
+
     # ---------------- MultitaskKernel / IndexKernel / LCMKernel
     fn = S.func("kernels/multitask_kernel.py", "MultitaskKernel", "forward")
     I = Interp({"self.task_covar_module.covar_matrix": mat("Kt"), "self.data_covar_module.forward(x1, x2, **params)": mat("Kx")},
@@ -731,6 +1011,18 @@ def translate(repo):
                "/-- `GridKernel.forward`: `KroneckerProductLinearOperator(*self._kronecker_order(covars))` -/\n"
                "def gridForward {α : Type} [Mul α] [Zero α] [One α] (interpolation_mode : Bool) (covars : List (Structured.Sq α)) : Structured.Sq α :=\n"
                "  Structured.kronList (kroneckerOrder interpolation_mode covars)\n\n")
+
+    # last_dim_is_batch (additive structure: one kernel per input dimension, NO Kronecker product): both branches
+    ldb = [s_ for s_ in ast.walk(fwd) if isinstance(s_, ast.If) and _u(s_.test) == "last_dim_is_batch"]
+    got = sorted(" ; ".join(_u(x) for x in s_.body) for s_ in ldb)
+    want = sorted(["covar = ToeplitzLinearOperator(covars.squeeze(-2))", "covar = covars"])
+    if got != want:
+        raise TranslateError(f"GridKernel.forward: last_dim_is_batch branches outside vocabulary: {got}")
+    out.append("/-- `GridKernel.forward`, `last_dim_is_batch=True`: the batch of per-dimension factors (Toeplitz of the row `k(g₀, g_l)` under\n"
+               "use_toeplitz, the dense factor otherwise); no Kronecker product is taken -/\n"
+               "def gridForwardLastDimBatch {α : Type} (rows : List (Σ n : Nat, Fin n → α)) (covars : List (Structured.Sq α)) (use_toeplitz : Bool) :\n"
+               "    List (Structured.Sq α) :=\n"
+               "  if use_toeplitz then rows.map (fun c => ⟨c.1, Structured.toeplitz c.2⟩) else covars\n\n")
 
     # ---------------- InducingPointKernelAddedLossTerm.loss
     fn = S.func("mlls/inducing_point_kernel_added_loss_term.py", "InducingPointKernelAddedLossTerm", "loss")
